@@ -78,7 +78,7 @@ CLAIMS = {
  "C02": dict(
    engine="persist",
    technique="Lean 4 proof (engine/disk invariant by induction over histories; recover_of_DInv) + differential correspondence",
-   text="Theorems C02_restart_lossless, C02_history, C02_recover_eq_live: for every configuration and every history of any length "
+   text="Theorems C02_restart_lossless, C02_history, C02_recover_eq_live, C02_consecutive_restarts (any n restarts in a row keep exactly the live documents): for every configuration and every history of any length "
         "(incl. any number/placement of restarts) strict recovery of the data directory succeeds and yields exactly the live "
         "documents, and the restarted engine satisfies the same invariant again. Tie: the same histories run through the real "
         "HnswBackend (with persistence, under the FS shim) and the model; results, recognised action sequences, on-disk listings "
